@@ -306,6 +306,7 @@ impl GenerationCache {
             type_mappings: Option<std::collections::BTreeMap<&'a String, &'a String>>,
             default_parameter_case: &'a str,
             default_field_case: &'a str,
+            visualize_deps: bool,
         }
 
         let hash_data = ConfigHashData {
@@ -318,6 +319,8 @@ impl GenerationCache {
                 .map(|mappings| mappings.iter().collect()),
             default_parameter_case: &config.default_parameter_case,
             default_field_case: &config.default_field_case,
+            // Decides whether the two dependency-graph files are written
+            visualize_deps: config.should_visualize_deps(),
         };
 
         let json = serde_json::to_string(&hash_data)?;
